@@ -990,8 +990,11 @@ func (p *Plugin) addFieldPrefix(root *insaneJSON.Root, key string, val any) {
 }
 
 func (p *Plugin) checkError(err error, node *insaneJSON.Node) bool {
+	if err == nil {
+		return false
+	}
 	if p.config.LogDecodeErrorMode_ == logDecodeErrorModeOff {
-		return err != nil
+		return true
 	}
 
 	msg := fmt.Sprintf("failed to decode %s", p.config.Decoder)
